@@ -226,6 +226,8 @@ TARGETS = {
 SPEC_VALUES = [
     'a', 'a.b', 'a.n', 'c', 'd', 'a.l', 'e', 'a.q', 'zz', 'd.0', 'a.l.0.y', 'a.b.c', 'm.x', 'f', 'a.l.0',
     'm.x.2', 'd.9', 'm.x.0', 'e.k1', 'b',
+    # '*' / '**' wildcard segments (Path.from_text): select several values
+    'a.l.*.y', 'a.l.*.x', 'd.*', 'e.*', '**.n', 'a.**.y', '*.b', 'a.l.*', '**.zz', 'a.l.*.zz', '*.a',
     {'x': 'a.b', 'w': 'c'}, {'k': {'inner': 'a.n'}, 'j': 'd'}, {'x': 'zz'}, {}, {'only': 'a.l'},
     ('a.l', ['y']), ('a.l', [{'p': 'x'}]), ['a'], ['b'], ('a', 'b'), ('a', 'n'), ('a', 'l', [('x',)]),
     {'r': ('a.l', [{'xx': 'x', 'yy': ('y',)}])}, ('d', ['zz']), [{'q': 'a'}], ('a', 'q'), ('f',), (),
@@ -881,11 +883,25 @@ def rand_path(rng, val, maxlen=4):
     return segs, cur
 
 
+def with_wildcards(rng, segs):
+    """sometimes turn a path into a wildcard path: an index / key segment becomes '*', or the
+    head of the path becomes '**' (the library decides what that selects)"""
+    segs = list(segs)
+    r = rng.random()
+    if r < 0.12 and len(segs) >= 1:
+        segs[rng.randrange(len(segs))] = '*'
+    elif r < 0.18:
+        segs = ['**', segs[-1]]
+    elif r < 0.21 and len(segs) >= 2:
+        segs = [segs[0], '**', segs[-1]]
+    return segs
+
+
 def rand_spec(rng, val, depth):
     r = rng.random()
     if depth <= 0 or r < 0.35:
         segs, _ = rand_path(rng, val)
-        return '.'.join(segs)
+        return '.'.join(with_wildcards(rng, segs))
     if r < 0.65:
         return {rng.choice(['p', 'q', 'r', 'zeta', 'alpha']) + str(i): rand_spec(rng, val, depth - 1)
                 for i in range(rng.randint(1, 3))}
@@ -1246,7 +1262,7 @@ def main(tier, seed):
     check.extra['action_coverage'] = actions
     if machinery:
         raise vlib.MachineryError('%d machinery problems, first: %s' % (len(machinery), machinery[0]['why']))
-    n_sub, n_in = {'quick': (250, 2500), 'thorough': (4000, 30000)}[tier]
+    n_sub, n_in = {'quick': (200, 1800), 'thorough': (4000, 30000)}[tier]
     nrec, rdrift, _ = record(check, n_sub, n_in, seed)
     drift += rdrift
     check.cov['evaluations'] += nrec
